@@ -987,7 +987,13 @@ func (e *Exec) execInstr(fr *frame, st *State, instr ssa.Instruction) {
 		e.fstack = e.fstack[:len(e.fstack)-1]
 		fr.vals[x] = m
 	case *ssa.MakeChan:
-		fr.vals[x] = e.newObj(st)
+		ch := e.newObj(st)
+		hs := smt.Array(AddrS, smt.Bool)
+		e.heapSort["GH|chanClosed"] = hs
+		e.fstack = append(e.fstack, nil)
+		e.writeHeap(st, smt.True, "GH|chanClosed", hs, ch, nil, smt.False, x.Pos())
+		e.fstack = e.fstack[:len(e.fstack)-1]
+		fr.vals[x] = ch
 	case *ssa.MakeClosure:
 		fn := x.Fn.(*ssa.Function)
 		bs := make([]*smt.Term, len(x.Bindings))
@@ -1041,7 +1047,34 @@ func (e *Exec) execInstr(fr *frame, st *State, instr ssa.Instruction) {
 		}
 	case *ssa.Go:
 		unsupported("go statement in %s", fr.fn)
-	case *ssa.Send, *ssa.Select:
+	case *ssa.Select:
+		// Receive-only select over channels that carry no messages (ASSUMED: they are only ever
+		// closed): a case is ready iff its channel is closed (ghost flag "chanClosed"). Any ready
+		// case may be chosen; a blocking select proceeds only once some case is ready.
+		hs := smt.Array(AddrS, smt.Bool)
+		e.heapSort["GH|chanClosed"] = hs
+		h := e.heap(st, "GH|chanClosed", hs)
+		idx := e.fresh("select", BV64)
+		var anyReady, pick []*smt.Term
+		vals := []*smt.Term{idx, smt.False}
+		for i, sst := range x.States {
+			if sst.Dir != types.RecvOnly {
+				unsupported("send case in select in %s", fr.fn)
+			}
+			ch := e.val(fr, st, sst.Chan)
+			ready := smt.And(smt.Neq(ch, NilAddr), smt.Select(h, ch))
+			anyReady = append(anyReady, ready)
+			pick = append(pick, smt.And(smt.Eq(idx, smt.Const(64, uint64(i))), ready))
+			vals = append(vals, e.W.Zero(sst.Chan.Type().Underlying().(*types.Chan).Elem()))
+		}
+		if x.Blocking {
+			st.Assume(smt.Or(pick...))
+		} else {
+			st.Assume(smt.Or(append(pick, smt.And(smt.Eq(idx, smt.Const(64, ^uint64(0))), smt.Not(smt.Or(anyReady...))))...))
+		}
+		e.W.Note("assumed: channels in select statements carry no messages (ready iff closed)")
+		fr.vals[x] = smt.TupleOf(vals...)
+	case *ssa.Send:
 		unsupported("channel operation in %s", fr.fn)
 	case *ssa.SliceToArrayPointer:
 		s := e.val(fr, st, x.X)
